@@ -279,6 +279,8 @@ KEYMAPS = [
     ('chain', dict(typed=True, _outer_kind='md5', _inner=['string', {}])),
     ('chain', dict(typed=True, sentinel=True, _outer_kind='string', _inner=['pickle', {'typed': True}])),
     ('chain', dict(typed=True, _outer_kind='sha1', _inner=['raw', {'sentinel': True}])),
+    # stringmap with an `encoding`: 'repr' (a string-like type: repr of the key) and 'utf_8' (a codec: repr of the key, encoded)
+    ('stringr', dict()), ('stringu', dict(typed=True)), ('stringr', dict(flat=False, sentinel=True)),
 ]
 
 
@@ -292,6 +294,8 @@ def make_km(kind, opts):
         return inner + make_km(outer_kind, {k: v for k, v in opts.items() if not k.startswith('_')})
     if kind == 'raw': return keymap(**o)
     if kind == 'string': return stringmap(**o)
+    if kind == 'stringr': return stringmap(encoding='repr', **o)
+    if kind == 'stringu': return stringmap(encoding='utf_8', **o)
     if kind == 'pickle': return picklemap(**o)
     if kind == 'picklep': return picklemap(serializer='pickle', **o)
     return hashmap(algorithm=kind, **o)
@@ -300,7 +304,8 @@ def make_km(kind, opts):
 def encoder(kind):
     if kind == 'raw': return lambda o: o
     if kind == 'string': return str
-    if kind == 'pickle': return repr
+    if kind in ('pickle', 'stringr'): return repr
+    if kind == 'stringu': return lambda o: repr(o).encode('utf_8')
     if kind == 'picklep': return lambda o: __import__('pickle').dumps(o)
     return lambda o: hashlib.new(kind, repr(o).encode()).hexdigest()
 
